@@ -141,7 +141,7 @@ package decoder
 
 //@ func (*intDecoder).Decode(d, ctx, cursor, depth, p) (c, err)
 //@   props C16 C06 C04
-//@   requires d != nil && ctx != nil && bufOK(ctx.Buf, cursor)
+//@   requires d != nil && ctx != nil && bufOK(ctx.Buf, cursor) && region(p, ksize(d.kind))
 //@   ensures err != nil ==> ncalls("intDecoder.op") == old(ncalls("intDecoder.op"))
 //@   ensures err == nil ==> cursor < c && c < len(old(ctx.Buf))
 //@   ensures err == nil ==> ncalls("intDecoder.op") == old(ncalls("intDecoder.op")) || ncalls("intDecoder.op") == old(ncalls("intDecoder.op")) + 1
@@ -154,6 +154,7 @@ package decoder
 //@   ghost tv := decvalN(bytes, len(bytes))
 //@   ensures err != nil && digit(old(ctx.Buf[cursor])) ==> tn > 19 || !fitsInt(tv, old(d.kind))
 //@   ensures err == nil && digit(old(ctx.Buf[cursor])) ==> ncalls("intDecoder.op") == old(ncalls("intDecoder.op")) + 1
+//@   callghost intDecoder.op: w := ksize(d.kind)
 //@   assigns all
 
 //@ func (*uintDecoder).decodeByte(d, buf, cursor) (res, c, err)
@@ -175,7 +176,7 @@ package decoder
 
 //@ func (*uintDecoder).Decode(d, ctx, cursor, depth, p) (c, err)
 //@   props C16 C06 C04
-//@   requires d != nil && ctx != nil && bufOK(ctx.Buf, cursor)
+//@   requires d != nil && ctx != nil && bufOK(ctx.Buf, cursor) && region(p, ksize(d.kind))
 //@   ensures err != nil ==> ncalls("uintDecoder.op") == old(ncalls("uintDecoder.op"))
 //@   ensures err == nil ==> cursor < c && c < len(old(ctx.Buf))
 //@   ensures err == nil ==> ncalls("uintDecoder.op") == old(ncalls("uintDecoder.op")) || ncalls("uintDecoder.op") == old(ncalls("uintDecoder.op")) + 1
@@ -188,6 +189,7 @@ package decoder
 //@   ghost tv := decvalN(bytes, len(bytes))
 //@   ensures err != nil && digit(old(ctx.Buf[cursor])) ==> tn > 20 || !fitsUint(tv, old(d.kind))
 //@   ensures err == nil && digit(old(ctx.Buf[cursor])) ==> ncalls("uintDecoder.op") == old(ncalls("uintDecoder.op")) + 1
+//@   callghost uintDecoder.op: w := ksize(d.kind)
 //@   assigns all
 
 // ---------------------------------------------------------------- type -> decoder cache (C14)
@@ -712,7 +714,10 @@ package decoder
 // invalid bytes); readBuf must therefore never shrink the window when it doubles. Not part of it: "cursor <= length" and "everything from length on is NUL" - readBuf
 // shortens the window at the first NUL byte of the data, so neither holds for inputs that contain
 // NUL bytes (outside the claim; see the bounded stand-in).
-//@ spec wfStream(s) := s != nil && 0 <= s.cursor && s.cursor < len(s.buf) && 0 <= s.length && s.length < len(s.buf) && len(s.buf) <= cap(s.buf) && len(s.buf) <= 4611686018427387903 && 0 <= s.bufSize && s.bufSize <= 4611686018427387903 && s.buf[len(s.buf) - 1] == 0 && region(ptrOf(s.buf), len(s.buf))
+// The recorded length is below the buffer length, and the distance between the two is bounded: that distance is
+// what reset, the in-place edits of the string scanner and the cursor steps all leave unchanged, so it is the
+// form in which 'length < len(buf)' is inductive (a lower bound on the length itself is not: reset subtracts the cursor).
+//@ spec wfStream(s) := s != nil && 0 <= s.cursor && s.cursor < len(s.buf) && s.length < len(s.buf) && len(s.buf) - s.length <= 4611686018427387903 && len(s.buf) <= cap(s.buf) && len(s.buf) <= 4611686018427387903 && 0 <= s.bufSize && s.bufSize <= 4611686018427387903 && s.buf[len(s.buf) - 1] == 0 && region(ptrOf(s.buf), len(s.buf))
 
 //@ func io.Reader.Read(r, p) (n, err)
 //@   props C09 C06
@@ -734,8 +739,13 @@ package decoder
 //@   ensures ptrOf(buf) == ptrOf(s.buf) + s.length && len(buf) == len(s.buf) - s.length && len(buf) >= 1 && len(buf) <= cap(buf)
 //@   ensures forall k :: 0 <= k && k < s.length ==> s.buf[k] == old(s.buf[k])
 //@   ensures s.buf[len(s.buf) - 1] == 0
+// the window is the old array (or a part of it) or one allocated here: what was apart from it stays apart
+//@   ensures sameOrNewArray(s.buf)
 //@   assigns Stream.buf, Stream.bufSize, Stream.length, fresh
-//@   loop 1: invariant 0 <= i && remainNotNulCharNum == i && (i == 0 || i <= remainLen) && remainLen == s.length - s.cursor
+// the scan for the first NUL stops at the sentinel at the latest, whatever Stream.length holds (the recorded
+// length is advisory: it only says how far to look)
+//@   loop 1: invariant 0 <= i && remainNotNulCharNum == i && s.cursor + i < old(len(s.buf))
+//@   loop 1: invariant sameOrNewArray(s.buf)
 
 //@ func (*Stream).read(s) (ok)
 //@   props C09 C06
@@ -745,7 +755,11 @@ package decoder
 //@   ensures forall k :: 0 <= k && k < s.cursor ==> s.buf[k] == old(s.buf[k])
 // "no more input" is reported only at end of input or together with the reader's error, which is kept for the caller
 //@   ensures !ok ==> old(s.allRead) || s.readErr != nil
-//@   assigns all
+// at end of input nothing changes at all
+//@   ensures !ok && s.readErr == nil ==> s.buf[s.cursor] == old(s.buf[s.cursor])
+// the window is the old array (or a part of it) or one allocated here: what was apart from it stays apart
+//@   ensures sameOrNewArray(s.buf)
+//@   assigns M, Stream.buf, Stream.bufSize, Stream.length, Stream.filledBuffer, Stream.allRead, Stream.readErr, fresh
 
 // ---------------------------------------------------------------- stream literals (C09, C06)
 
@@ -754,10 +768,15 @@ package decoder
 //@   requires wfStream(s) && s.buf[s.cursor] == 'n'
 // chunk independence of the literal: on success the bytes consumed spell the literal, however the reader cut it
 //@   ensures err == nil ==> wfStream(s) && s.cursor == old(s.cursor) + 4 && s.buf[s.cursor - 4] == 'n' && s.buf[s.cursor - 3] == 'u' && s.buf[s.cursor - 2] == 'l' && s.buf[s.cursor - 1] == 'l'
-//@   assigns all
+// the window is the old array (or a part of it) or one allocated here: what was apart from it stays apart
+//@   ensures sameOrNewArray(s.buf)
+//@   assigns M, Stream.buf, Stream.bufSize, Stream.length, Stream.cursor, Stream.filledBuffer, Stream.allRead, Stream.readErr, fresh
 //@   loop 1: invariant wfStream(s) && s.cursor == old(s.cursor) + 1 && s.buf[s.cursor - 1] == 'n'
+//@   loop 1: invariant sameOrNewArray(s.buf)
 //@   loop 2: invariant wfStream(s) && s.cursor == old(s.cursor) + 2 && s.buf[s.cursor - 2] == 'n' && s.buf[s.cursor - 1] == 'u'
+//@   loop 2: invariant sameOrNewArray(s.buf)
 //@   loop 3: invariant wfStream(s) && s.cursor == old(s.cursor) + 3 && s.buf[s.cursor - 3] == 'n' && s.buf[s.cursor - 2] == 'u' && s.buf[s.cursor - 1] == 'l'
+//@   loop 3: invariant sameOrNewArray(s.buf)
 
 //@ func retryReadNull(s) (err)
 //@   props C09 C06
@@ -765,17 +784,24 @@ package decoder
 //@   ensures wfStream(s) && s.cursor == old(s.cursor)
 //@   ensures forall k :: 0 <= k && k < s.cursor ==> s.buf[k] == old(s.buf[k])
 //@   ensures err == nil ==> old(s.buf[s.cursor]) == 0
-//@   assigns all
+// the window is the old array (or a part of it) or one allocated here: what was apart from it stays apart
+//@   ensures sameOrNewArray(s.buf)
+//@   assigns M, Stream.buf, Stream.bufSize, Stream.length, Stream.cursor, Stream.filledBuffer, Stream.allRead, Stream.readErr, fresh
 
 //@ func trueBytes(s) (err)
 //@   props C09 C06
 //@   requires wfStream(s) && s.buf[s.cursor] == 't'
 // chunk independence of the literal: on success the bytes consumed spell the literal, however the reader cut it
 //@   ensures err == nil ==> wfStream(s) && s.cursor == old(s.cursor) + 4 && s.buf[s.cursor - 4] == 't' && s.buf[s.cursor - 3] == 'r' && s.buf[s.cursor - 2] == 'u' && s.buf[s.cursor - 1] == 'e'
-//@   assigns all
+// the window is the old array (or a part of it) or one allocated here: what was apart from it stays apart
+//@   ensures sameOrNewArray(s.buf)
+//@   assigns M, Stream.buf, Stream.bufSize, Stream.length, Stream.cursor, Stream.filledBuffer, Stream.allRead, Stream.readErr, fresh
 //@   loop 1: invariant wfStream(s) && s.cursor == old(s.cursor) + 1 && s.buf[s.cursor - 1] == 't'
+//@   loop 1: invariant sameOrNewArray(s.buf)
 //@   loop 2: invariant wfStream(s) && s.cursor == old(s.cursor) + 2 && s.buf[s.cursor - 2] == 't' && s.buf[s.cursor - 1] == 'r'
+//@   loop 2: invariant sameOrNewArray(s.buf)
 //@   loop 3: invariant wfStream(s) && s.cursor == old(s.cursor) + 3 && s.buf[s.cursor - 3] == 't' && s.buf[s.cursor - 2] == 'r' && s.buf[s.cursor - 1] == 'u'
+//@   loop 3: invariant sameOrNewArray(s.buf)
 
 //@ func retryReadTrue(s) (err)
 //@   props C09 C06
@@ -783,18 +809,26 @@ package decoder
 //@   ensures wfStream(s) && s.cursor == old(s.cursor)
 //@   ensures forall k :: 0 <= k && k < s.cursor ==> s.buf[k] == old(s.buf[k])
 //@   ensures err == nil ==> old(s.buf[s.cursor]) == 0
-//@   assigns all
+// the window is the old array (or a part of it) or one allocated here: what was apart from it stays apart
+//@   ensures sameOrNewArray(s.buf)
+//@   assigns M, Stream.buf, Stream.bufSize, Stream.length, Stream.cursor, Stream.filledBuffer, Stream.allRead, Stream.readErr, fresh
 
 //@ func falseBytes(s) (err)
 //@   props C09 C06
 //@   requires wfStream(s) && s.buf[s.cursor] == 'f'
 // chunk independence of the literal: on success the bytes consumed spell the literal, however the reader cut it
 //@   ensures err == nil ==> wfStream(s) && s.cursor == old(s.cursor) + 5 && s.buf[s.cursor - 5] == 'f' && s.buf[s.cursor - 4] == 'a' && s.buf[s.cursor - 3] == 'l' && s.buf[s.cursor - 2] == 's' && s.buf[s.cursor - 1] == 'e'
-//@   assigns all
+// the window is the old array (or a part of it) or one allocated here: what was apart from it stays apart
+//@   ensures sameOrNewArray(s.buf)
+//@   assigns M, Stream.buf, Stream.bufSize, Stream.length, Stream.cursor, Stream.filledBuffer, Stream.allRead, Stream.readErr, fresh
 //@   loop 1: invariant wfStream(s) && s.cursor == old(s.cursor) + 1 && s.buf[s.cursor - 1] == 'f'
+//@   loop 1: invariant sameOrNewArray(s.buf)
 //@   loop 2: invariant wfStream(s) && s.cursor == old(s.cursor) + 2 && s.buf[s.cursor - 2] == 'f' && s.buf[s.cursor - 1] == 'a'
+//@   loop 2: invariant sameOrNewArray(s.buf)
 //@   loop 3: invariant wfStream(s) && s.cursor == old(s.cursor) + 3 && s.buf[s.cursor - 3] == 'f' && s.buf[s.cursor - 2] == 'a' && s.buf[s.cursor - 1] == 'l'
+//@   loop 3: invariant sameOrNewArray(s.buf)
 //@   loop 4: invariant wfStream(s) && s.cursor == old(s.cursor) + 4 && s.buf[s.cursor - 4] == 'f' && s.buf[s.cursor - 3] == 'a' && s.buf[s.cursor - 2] == 'l' && s.buf[s.cursor - 1] == 's'
+//@   loop 4: invariant sameOrNewArray(s.buf)
 
 //@ func retryReadFalse(s) (err)
 //@   props C09 C06
@@ -802,12 +836,14 @@ package decoder
 //@   ensures wfStream(s) && s.cursor == old(s.cursor)
 //@   ensures forall k :: 0 <= k && k < s.cursor ==> s.buf[k] == old(s.buf[k])
 //@   ensures err == nil ==> old(s.buf[s.cursor]) == 0
-//@   assigns all
+// the window is the old array (or a part of it) or one allocated here: what was apart from it stays apart
+//@   ensures sameOrNewArray(s.buf)
+//@   assigns M, Stream.buf, Stream.bufSize, Stream.length, Stream.cursor, Stream.filledBuffer, Stream.allRead, Stream.readErr, fresh
 
 // ---------------------------------------------------------------- refill until n bytes are there (C09, C06)
 //@ func (*Stream).bufptr(s) (p)
 //@   props C09
-//@   trusted reads the data word of the slice header through unsafe.Pointer
+//@   requires s != nil
 //@   ensures p == ptrOf(s.buf)
 //@   assigns nothing
 
@@ -819,8 +855,11 @@ package decoder
 //@   ensures wfStream(s) && s.cursor == old(s.cursor) && len(s.buf) >= old(len(s.buf))
 //@   ensures ok ==> s.cursor + n < s.length
 //@   ensures forall k :: 0 <= k && k < s.cursor ==> s.buf[k] == old(s.buf[k])
-//@   assigns all
+// the window is the old array (or a part of it) or one allocated here: what was apart from it stays apart
+//@   ensures sameOrNewArray(s.buf)
+//@   assigns M, Stream.buf, Stream.bufSize, Stream.length, Stream.cursor, Stream.filledBuffer, Stream.allRead, Stream.readErr, fresh
 //@   loop 1: invariant wfStream(s)
+//@   loop 1: invariant sameOrNewArray(s.buf)
 //@   loop 1: invariant s.cursor == old(s.cursor) && len(s.buf) >= old(len(s.buf))
 //@   loop 1: invariant forall k :: 0 <= k && k < s.cursor ==> s.buf[k] == old(s.buf[k])
 
@@ -838,7 +877,9 @@ package decoder
 //@   props C09 C15 C06
 //@   requires wfStream(s)
 //@   ensures err == nil ==> wfStream(s) && (s.cursor == old(s.cursor) + 3 || s.cursor == old(s.cursor) + 9) && s.cursor + 1 < len(s.buf) && len(chars) >= 1 && len(chars) <= 4
-//@   assigns all
+// the window is the old array (or a part of it) or one allocated here: what was apart from it stays apart
+//@   ensures sameOrNewArray(s.buf)
+//@   assigns M, Stream.buf, Stream.bufSize, Stream.length, Stream.cursor, Stream.filledBuffer, Stream.allRead, Stream.readErr, fresh
 
 // ---------------------------------------------------------------- JSON number grammar (C05)
 // The RFC 8259 number grammar as a DFA (same as in the encoder package): 0 start, 1 after '-', 2 after a
@@ -864,12 +905,13 @@ package decoder
 // a float is stored only if the token it was parsed from is a JSON number
 //@ func (*floatDecoder).Decode(d, ctx, cursor, depth, p) (c, err)
 //@   props C05 C06
-//@   requires d != nil && ctx != nil && bufOK(ctx.Buf, cursor)
+//@   requires d != nil && ctx != nil && bufOK(ctx.Buf, cursor) && 1 <= dsize(d) && dsize(d) <= 16 && region(p, dsize(d))
 //@   ensures err != nil ==> ncalls("floatDecoder.op") == old(ncalls("floatDecoder.op"))
 //@   ensures err == nil ==> cursor < c && c < len(old(ctx.Buf))
 //@   ensures err == nil ==> ncalls("floatDecoder.op") == old(ncalls("floatDecoder.op")) || ncalls("floatDecoder.op") == old(ncalls("floatDecoder.op")) + 1
 //@   ghost s := cursor - len(bytes)
 //@   ensures err == nil && ncalls("floatDecoder.op") != old(ncalls("floatDecoder.op")) ==> cursor <= s && s < c && old(wsRun(ctx.Buf, cursor, s)) && jsonNum(ptrOf(old(ctx.Buf)) + s, c - s)
+//@   callghost floatDecoder.op: w := dsize(d)
 //@   assigns all
 
 //@ func (*numberDecoder).decodeByte(d, buf, cursor) (res, c, err)
@@ -886,7 +928,7 @@ package decoder
 // a json.Number is stored only if its text is a JSON number
 //@ func (*numberDecoder).Decode(d, ctx, cursor, depth, p) (c, err)
 //@   props C05 C06
-//@   requires d != nil && d.stringDecoder != nil && ctx != nil && bufOK(ctx.Buf, cursor)
+//@   requires d != nil && d.stringDecoder != nil && ctx != nil && bufOK(ctx.Buf, cursor) && region(p, 16)
 //@   ensures err != nil ==> ncalls("numberDecoder.op") == old(ncalls("numberDecoder.op"))
 //@   ensures err == nil ==> ncalls("numberDecoder.op") == old(ncalls("numberDecoder.op")) || ncalls("numberDecoder.op") == old(ncalls("numberDecoder.op")) + 1
 //@   ghost tp := ptrOf(bytes)
@@ -952,43 +994,384 @@ package decoder
 //@   loop 3: decreases 5 - i
 //@   nomerge
 
+// ---------------------------------------------------------------- the store functions of the scalar decoders (C16, C07, C09)
+// ksize(kind): width in bytes of an integer kind (reflect.Kind numbering)
+//@ spec ksize(k) := (k == 3 || k == 8) ? 1 : ((k == 4 || k == 9) ? 2 : ((k == 5 || k == 10) ? 4 : 8))
+//@ spec apartS(p, n, s) := p + n <= ptrOf(s.buf) || ptrOf(s.buf) + cap(s.buf) <= p
+// The function stored in intDecoder.op / uintDecoder.op is one of the closures of compileInt*/compileUint*
+// (verified below against "writes exactly the width of its type, the value unchanged when it fits"); that the
+// decoder's kind is the kind of that closure's type is assumed of the reflection-driven compiler.
+//@ func fieldfunc:intDecoder.op(p, v) ()
+//@   props C16 C09 C07 C06
+//@   trusted field contract of the integer store closures: each literal stored by compile.go is verified against its own contract; the pairing of d.kind with the closure's width is assumed of the reflection-driven compiler
+//@   ghostparam w
+//@   requires 1 <= w && w <= 8 && region(p, w)
+//@   assigns M[p .. p + w)
+//@ func fieldfunc:uintDecoder.op(p, v) ()
+//@   props C16 C09 C07 C06
+//@   trusted field contract of the integer store closures: each literal stored by compile.go is verified against its own contract; the pairing of d.kind with the closure's width is assumed of the reflection-driven compiler
+//@   ghostparam w
+//@   requires 1 <= w && w <= 8 && region(p, w)
+//@   assigns M[p .. p + w)
+
+// two's complement image of v in n bytes
+//@ spec twos(v, n) := v < 0 ? v + pow2(8 * n) : v
+//@ func compileInt$1(p, v) ()
+//@   props C16 C07
+//@   requires region(p, 8)
+//@   ensures wordAt(p, 8) == twos(v, 8)
+//@   assigns M[p .. p + 8)
+//@ func compileInt8$1(p, v) ()
+//@   props C16 C07
+//@   requires region(p, 1)
+//@   ensures -128 <= v && v <= 127 ==> wordAt(p, 1) == twos(v, 1)
+//@   assigns M[p .. p + 1)
+//@ func compileInt16$1(p, v) ()
+//@   props C16 C07
+//@   requires region(p, 2)
+//@   ensures -32768 <= v && v <= 32767 ==> wordAt(p, 2) == twos(v, 2)
+//@   assigns M[p .. p + 2)
+//@ func compileInt32$1(p, v) ()
+//@   props C16 C07
+//@   requires region(p, 4)
+//@   ensures -2147483648 <= v && v <= 2147483647 ==> wordAt(p, 4) == twos(v, 4)
+//@   assigns M[p .. p + 4)
+//@ func compileInt64$1(p, v) ()
+//@   props C16 C07
+//@   requires region(p, 8)
+//@   ensures wordAt(p, 8) == twos(v, 8)
+//@   assigns M[p .. p + 8)
+//@ func compileUint$1(p, v) ()
+//@   props C16 C07
+//@   requires region(p, 8)
+//@   ensures wordAt(p, 8) == v
+//@   assigns M[p .. p + 8)
+//@ func compileUint8$1(p, v) ()
+//@   props C16 C07
+//@   requires region(p, 1)
+//@   ensures v <= 255 ==> wordAt(p, 1) == v
+//@   assigns M[p .. p + 1)
+//@ func compileUint16$1(p, v) ()
+//@   props C16 C07
+//@   requires region(p, 2)
+//@   ensures v <= 65535 ==> wordAt(p, 2) == v
+//@   assigns M[p .. p + 2)
+//@ func compileUint32$1(p, v) ()
+//@   props C16 C07
+//@   requires region(p, 4)
+//@   ensures v <= 4294967295 ==> wordAt(p, 4) == v
+//@   assigns M[p .. p + 4)
+//@ func compileUint64$1(p, v) ()
+//@   props C16 C07
+//@   requires region(p, 8)
+//@   ensures wordAt(p, 8) == v
+//@   assigns M[p .. p + 8)
+
+// The functions stored in floatDecoder.op and numberDecoder.op: the closures of compileFloat32/64 and
+// compileString, and those of the interface{} decoders, which box the value. Each is verified below: one typed
+// store at p, nothing else. dsize(d) (4, 8 or 16) is the width the constructor pairs the closure with (assumed).
+//@ func fieldfunc:floatDecoder.op(p, v) ()
+//@   props C05 C09 C07 C06
+//@   trusted field contract of the float store closures: each literal stored by compile.go and interface.go is verified against its own contract; the pairing with dsize is assumed of the constructors
+//@   ghostparam w
+//@   requires 1 <= w && w <= 16 && region(p, w)
+//@   assigns class T:float32, class T:float64, class T:interface{}.typ, class T:interface{}.data
+//@ func fieldfunc:numberDecoder.op(p, v) ()
+//@   props C05 C09 C07 C06
+//@   trusted field contract of the json.Number store closures: each literal stored by compile.go and interface.go is verified against its own contract
+//@   requires region(p, 16)
+//@   assigns class T:json.Number.ptr, class T:int.len, class T:interface{}.typ, class T:interface{}.data
+//@ func compileFloat32$1(p, v) ()
+//@   props C07 C05
+//@   requires region(p, 4)
+//@   assigns class T:float32
+//@ func compileFloat64$1(p, v) ()
+//@   props C07 C05
+//@   requires region(p, 8)
+//@   assigns class T:float64
+//@ func compileString$1(p, v) ()
+//@   props C07 C05
+//@   requires region(p, 16)
+//@   assigns class T:json.Number.ptr, class T:int.len
+//@ func newEmptyInterfaceDecoder$1(p, v) ()
+//@   props C07 C05
+//@   requires region(p, 16)
+//@   assigns class T:interface{}.typ, class T:interface{}.data
+//@ func newEmptyInterfaceDecoder$2(p, v) ()
+//@   props C07 C05
+//@   requires region(p, 16)
+//@   assigns class T:interface{}.typ, class T:interface{}.data
+//@ func newInterfaceDecoder$1(p, v) ()
+//@   props C07 C05
+//@   requires region(p, 16)
+//@   assigns class T:interface{}.typ, class T:interface{}.data
+//@ func newInterfaceDecoder$2(p, v) ()
+//@   props C07 C05
+//@   requires region(p, 16)
+//@   assigns class T:interface{}.typ, class T:interface{}.data
+//@ func NewPathDecoder$1(p, v) ()
+//@   props C07 C05
+//@   requires region(p, 16)
+//@   assigns class T:interface{}.typ, class T:interface{}.data
+//@ func NewPathDecoder$2(p, v) ()
+//@   props C07 C05
+//@   requires region(p, 16)
+//@   assigns class T:interface{}.typ, class T:interface{}.data
+
 // ---------------------------------------------------------------- stream twins of the integer decoders (C16, C09)
 // The stream scanners are trusted for the token shape only; what is proved is the part the two modes
 // share by copy: the parsed value is stored at most once, only on success, only if it fits the kind.
+//@ func isNumberContinuation(c) (r)
+//@   props C16 C09 C05 C06
+//@   ensures r <==> (c == '.' || c == 'e' || c == 'E' || digit(c))
+//@   assigns nothing
+
+// what follows an integer token does not continue a number (3.25, 1e2, 01 are not integers)
+//@ spec numCont(c) := c == '.' || c == 'e' || c == 'E' || digit(c)
+// The token returned is a JSON integer however the reader cut the input: the bytes of the window from the
+// first character of the token up to the cursor, with a byte behind it that continues no number. A refill
+// keeps every byte before the cursor (contract of read), which is what carries the digits seen so far.
 //@ func (*intDecoder).decodeStreamByte(d, s) (res, err)
-//@   props C16 C09
-//@   trusted stream-mode integer scanner (refill branches; covered by the bounded chunking stand-in)
-//@   requires d != nil && s != nil
+//@   props C16 C09 C06 C05
+//@   requires d != nil && wfStream(s)
+//@   ensures err == nil ==> wfStream(s) && s.cursor >= old(s.cursor)
 //@   ensures err == nil && res != nil ==> len(res) >= 1 && len(res) <= cap(res) && tokChars(res, 0, len(res))
-//@   assigns M, Stream.buf, Stream.bufSize, Stream.length, Stream.cursor, Stream.offset, Stream.filledBuffer, Stream.allRead, Stream.readErr
+//@   ensures err == nil && res != nil ==> jsonIntTok(res, 0, len(res)) && !numCont(s.buf[s.cursor])
+//@   ensures err == nil && res != nil ==> (ptrOf(res) + len(res) == ptrOf(s.buf) + s.cursor && len(res) <= s.cursor) || (len(res) == 1 && res[0] == '0' && s.cursor >= 1 && s.buf[s.cursor-1] == '0')
+// the window is the old array (or a part of it) or one allocated here: what was apart from it stays apart
+//@   ensures sameOrNewArray(s.buf)
+//@   assigns M, Stream.buf, Stream.bufSize, Stream.length, Stream.cursor, Stream.filledBuffer, Stream.allRead, Stream.readErr, fresh
+//@   loop 1: invariant wfStream(s) && s.cursor >= old(s.cursor)
+//@   loop 1: invariant sameOrNewArray(s.buf)
+//@   loop 2: invariant wfStream(s) && old(s.cursor) <= start && start <= s.cursor && s.buf[s.cursor] != 0 && s.buf[start] == '-'
+//@   loop 2: invariant sameOrNewArray(s.buf)
+//@   loop 2: invariant forall k :: start < k && k <= s.cursor ==> digit(s.buf[k])
+//@   loop 3: invariant wfStream(s) && old(s.cursor) <= start && start <= s.cursor && s.buf[s.cursor] != 0 && s.buf[start] >= '1' && s.buf[start] <= '9'
+//@   loop 3: invariant sameOrNewArray(s.buf)
+//@   loop 3: invariant forall k :: start < k && k <= s.cursor ==> digit(s.buf[k])
+//@   nomerge
 
 //@ func (*uintDecoder).decodeStreamByte(d, s) (res, err)
-//@   props C16 C09
-//@   trusted stream-mode integer scanner (refill branches; covered by the bounded chunking stand-in)
-//@   requires d != nil && s != nil
+//@   props C16 C09 C06 C05
+//@   requires d != nil && wfStream(s)
+//@   ensures err == nil ==> wfStream(s) && s.cursor >= old(s.cursor)
 //@   ensures err == nil && res != nil ==> len(res) >= 1 && len(res) <= cap(res) && digitsAt(res, 0, len(res))
-//@   assigns M, Stream.buf, Stream.bufSize, Stream.length, Stream.cursor, Stream.offset, Stream.filledBuffer, Stream.allRead, Stream.readErr
+//@   ensures err == nil && res != nil ==> jsonUintTok(res, 0, len(res)) && !numCont(s.buf[s.cursor])
+//@   ensures err == nil && res != nil ==> (ptrOf(res) + len(res) == ptrOf(s.buf) + s.cursor && len(res) <= s.cursor) || (len(res) == 1 && res[0] == '0' && s.cursor >= 1 && s.buf[s.cursor-1] == '0')
+// the window is the old array (or a part of it) or one allocated here: what was apart from it stays apart
+//@   ensures sameOrNewArray(s.buf)
+//@   assigns M, Stream.buf, Stream.bufSize, Stream.length, Stream.cursor, Stream.filledBuffer, Stream.allRead, Stream.readErr, fresh
+//@   loop 1: invariant wfStream(s) && s.cursor >= old(s.cursor)
+//@   loop 1: invariant sameOrNewArray(s.buf)
+//@   loop 2: invariant wfStream(s) && old(s.cursor) <= start && start <= s.cursor && s.buf[s.cursor] != 0 && s.buf[start] >= '1' && s.buf[start] <= '9'
+//@   loop 2: invariant sameOrNewArray(s.buf)
+//@   loop 2: invariant forall k :: start < k && k <= s.cursor ==> digit(s.buf[k])
+//@   nomerge
 
+// reset drops the consumed prefix: the window starts at the old cursor; its bytes are the same memory
 //@ func (*Stream).reset(s)
-//@   props C09
-//@   trusted drops the consumed prefix of the window
-//@   requires s != nil
+//@   props C09 C06
+//@   requires wfStream(s)
+//@   ensures wfStream(s) && s.cursor == 0 && ptrOf(s.buf) == old(ptrOf(s.buf)) + old(s.cursor) && len(s.buf) == old(len(s.buf)) - old(s.cursor)
+// the window is the old array (or a part of it) or one allocated here: what was apart from it stays apart
+//@   ensures sameOrNewArray(s.buf)
 //@   assigns Stream.buf, Stream.offset, Stream.length, Stream.cursor
 
 //@ func (*intDecoder).DecodeStream(d, s, depth, p) (err)
 //@   props C16 C09
-//@   requires d != nil && s != nil
+//@   requires d != nil && wfStream(s) && region(p, ksize(d.kind)) && apartS(p, ksize(d.kind), s)
 //@   ensures err != nil ==> ncalls("intDecoder.op") == old(ncalls("intDecoder.op"))
 //@   ensures ncalls("intDecoder.op") == old(ncalls("intDecoder.op")) || ncalls("intDecoder.op") == old(ncalls("intDecoder.op")) + 1
 //@   ensures ncalls("intDecoder.op") != old(ncalls("intDecoder.op")) ==> callarg("intDecoder.op", 1) == p && fitsInt(callarg("intDecoder.op", 2), old(d.kind))
+// what is stored is the value of the token the scanner returned: a JSON integer, whatever the chunking (C09)
+//@   callassert[C16] op: jsonIntTok(bytes, 0, len(bytes)) && arg1 == intvalOf(bytes) && fitsInt(arg1, d.kind)
+//@   callghost intDecoder.op: w := ksize(d.kind)
+// the window invariant is handed on: the store goes to the destination, which is no part of the window
+//@   ensures err == nil ==> wfStream(s)
 //@   assigns all
 
 //@ func (*uintDecoder).DecodeStream(d, s, depth, p) (err)
 //@   props C16 C09
-//@   requires d != nil && s != nil
+//@   requires d != nil && wfStream(s) && region(p, ksize(d.kind)) && apartS(p, ksize(d.kind), s)
 //@   ensures err != nil ==> ncalls("uintDecoder.op") == old(ncalls("uintDecoder.op"))
 //@   ensures ncalls("uintDecoder.op") == old(ncalls("uintDecoder.op")) || ncalls("uintDecoder.op") == old(ncalls("uintDecoder.op")) + 1
 //@   ensures ncalls("uintDecoder.op") != old(ncalls("uintDecoder.op")) ==> callarg("uintDecoder.op", 1) == p && fitsUint(callarg("uintDecoder.op", 2), old(d.kind))
+// what is stored is the value of the token the scanner returned: a JSON integer, whatever the chunking (C09)
+//@   callassert[C16] op: jsonUintTok(bytes, 0, len(bytes)) && arg1 == decvalN(bytes, len(bytes)) && fitsUint(arg1, d.kind)
+//@   callghost uintDecoder.op: w := ksize(d.kind)
+// the window invariant is handed on: the store goes to the destination, which is no part of the window
+//@   ensures err == nil ==> wfStream(s)
+//@   assigns all
+
+// ---------------------------------------------------------------- stream twins of the number and bool decoders (C09, C05, C06)
+// The number token of stream mode is the same maximal run of number characters as in buffer mode, however
+// the reader cut it: the digits seen before a refill are kept by read (bytes before the cursor never change).
+//@ func floatBytes(s) (res)
+//@   props C09 C05 C06
+//@   requires wfStream(s) && s.buf[s.cursor] != 0
+//@   ensures wfStream(s) && s.cursor > old(s.cursor) && len(res) >= 1 && len(res) <= cap(res) && len(res) == s.cursor - old(s.cursor) && ptrOf(res) + len(res) == ptrOf(s.buf) + s.cursor
+//@   ensures res[0] == old(s.buf[s.cursor])
+//@   ensures forall k :: 1 <= k && k < len(res) ==> floatChar(res[k])
+// (a reader failure in the middle of the token is kept in readErr and reported by the Decoder)
+//@   ensures !floatChar(s.buf[s.cursor]) || s.readErr != nil
+// the window is the old array (or a part of it) or one allocated here: what was apart from it stays apart
+//@   ensures sameOrNewArray(s.buf)
+//@   assigns M, Stream.buf, Stream.bufSize, Stream.length, Stream.cursor, Stream.filledBuffer, Stream.allRead, Stream.readErr, fresh
+//@   loop 1: invariant wfStream(s) && start == old(s.cursor) && start <= s.cursor && s.buf[s.cursor] != 0 && s.buf[start] == old(s.buf[s.cursor])
+//@   loop 1: invariant sameOrNewArray(s.buf)
+//@   loop 1: invariant forall k :: start < k && k <= s.cursor ==> floatChar(s.buf[k])
+//@   nomerge
+
+//@ func (*floatDecoder).decodeStreamByte(d, s) (res, err)
+//@   props C09 C05 C06
+//@   requires wfStream(s)
+//@   ensures err == nil ==> wfStream(s) && s.cursor >= old(s.cursor)
+//@   ensures err == nil && res != nil ==> len(res) >= 1 && len(res) <= cap(res) && ptrOf(res) + len(res) == ptrOf(s.buf) + s.cursor && (res[0] == '-' || digit(res[0])) && (!floatChar(s.buf[s.cursor]) || s.readErr != nil)
+//@   ensures err == nil && res != nil ==> forall k :: 1 <= k && k < len(res) ==> floatChar(res[k])
+// the window is the old array (or a part of it) or one allocated here: what was apart from it stays apart
+//@   ensures sameOrNewArray(s.buf)
+//@   assigns M, Stream.buf, Stream.bufSize, Stream.length, Stream.cursor, Stream.filledBuffer, Stream.allRead, Stream.readErr, fresh
+//@   loop 1: invariant wfStream(s) && s.cursor >= old(s.cursor)
+//@   loop 1: invariant sameOrNewArray(s.buf)
+
+// a float is stored only if the token it was parsed from is a JSON number, in stream mode too
+//@ func (*floatDecoder).DecodeStream(d, s, depth, p) (err)
+//@   props C09 C05 C06
+//@   requires d != nil && wfStream(s) && 1 <= dsize(d) && dsize(d) <= 16 && region(p, dsize(d))
+//@   ensures err != nil ==> ncalls("floatDecoder.op") == old(ncalls("floatDecoder.op"))
+//@   ensures ncalls("floatDecoder.op") == old(ncalls("floatDecoder.op")) || ncalls("floatDecoder.op") == old(ncalls("floatDecoder.op")) + 1
+//@   callassert[C05] op: jsonNum(ptrOf(bytes), len(bytes))
+//@   callghost floatDecoder.op: w := dsize(d)
+//@   ensures err == nil ==> wfStream(s)
+//@   assigns all
+
+//@ func (*numberDecoder).decodeStreamByte(d, s) (res, err)
+//@   props C09 C05 C06
+//@   requires d != nil && d.stringDecoder != nil && wfStream(s)
+//@   ensures err == nil ==> wfStream(s)
+//@   ensures err == nil && res != nil ==> len(res) >= 0 && len(res) <= cap(res)
+// the window is the old array (or a part of it) or one allocated here: what was apart from it stays apart
+//@   ensures sameOrNewArray(s.buf)
+//@   assigns M, Stream.buf, Stream.bufSize, Stream.length, Stream.cursor, Stream.filledBuffer, Stream.allRead, Stream.readErr, fresh
+//@   loop 1: invariant wfStream(s) && s.cursor >= start
+//@   loop 1: invariant sameOrNewArray(s.buf)
+
+// a json.Number is stored only if its text is a JSON number, in stream mode too
+//@ func (*numberDecoder).DecodeStream(d, s, depth, p) (err)
+//@   props C09 C05 C06
+//@   requires d != nil && d.stringDecoder != nil && wfStream(s) && region(p, 16)
+//@   ensures err != nil ==> ncalls("numberDecoder.op") == old(ncalls("numberDecoder.op"))
+//@   ensures ncalls("numberDecoder.op") == old(ncalls("numberDecoder.op")) || ncalls("numberDecoder.op") == old(ncalls("numberDecoder.op")) + 1
+//@   callassert[C05] op: jsonNum(ptrOf(bytes), len(bytes))
+//@   ensures err == nil ==> wfStream(s)
+//@   assigns all
+
+// the bool decoder of stream mode writes one byte at p, only after the whole literal has been seen
+//@ func (*boolDecoder).DecodeStream(d, s, depth, p) (err)
+//@   props C09 C07 C06 C05
+//@   requires wfStream(s) && region(p, 1) && (p + 1 <= ptrOf(s.buf) || ptrOf(s.buf) + cap(s.buf) <= p)
+//@   ensures err == nil ==> wfStream(s) && s.cursor >= old(s.cursor)
+// the window is the old array (or a part of it) or one allocated here: what was apart from it stays apart
+//@   ensures sameOrNewArray(s.buf)
+//@   assigns M, Stream.buf, Stream.bufSize, Stream.length, Stream.cursor, Stream.filledBuffer, Stream.allRead, Stream.readErr, fresh
+//@   loop 1: invariant wfStream(s) && s.cursor >= old(s.cursor) && (c != 0 ==> c == s.buf[s.cursor])
+//@   loop 1: invariant sameOrNewArray(s.buf)
+
+// ---------------------------------------------------------------- stream twins of the container decoders (C07, C06, C09)
+// Interface contract of stream decoding: the window invariant goes in and, on success, comes out; the
+// destination (dsize(d) bytes at p) is no part of the window's array, which is kept or replaced by a new one.
+//@ func Decoder.DecodeStream(d, s, depth, p) (err)
+//@   props C06 C07 C09
+//@   trusted interface contract: implementations under contract are verified against their own contracts (their extra preconditions are struct invariants set up by the constructors); the others are assumed to satisfy it
+//@   requires wfStream(s) && apartS(p, dsize(dataOf(d)), s)
+//@   ensures err == nil ==> wfStream(s)
+//@   ensures sameOrNewArray(s.buf)
+//@   assigns all
+
+// The array decoder of stream mode writes only inside the alen*size bytes of the destination array, and every
+// element handed down to the element decoder lies inside it (same frame as buffer mode).
+//@ func (*arrayDecoder).DecodeStream(d, s, depth, p) (err)
+//@   props C07 C06 C09
+//@   requires d != nil && wfStream(s)
+//@   requires d.alen >= 0 && d.size >= 1 && d.size == rsize(d.elemType) && d.alen * d.size < 140737488355328
+//@   requires region(p, d.alen * d.size) && apartS(p, d.alen * d.size, s)
+//@   requires dsize(dataOf(d.valueDecoder)) == d.size
+//@   callassert[C07] DecodeStream: within(arg3, d.size, p, d.alen * d.size)
+//@   postassume DecodeStream: d.alen == old(d.alen) && d.size == old(d.size) && d.elemType == old(d.elemType) && d.valueDecoder == old(d.valueDecoder) && d.zeroValue == old(d.zeroValue)
+// resource bound: fewer than 2^62 elements in one array of a stream (the element counter does not overflow)
+//@   postassume DecodeStream: idx < 4611686018427387903
+//@   postassume skipValue: idx < 4611686018427387903
+// the branch that steps over a byte after a refill at the end-of-data mark is entered only after a reader failure
+// followed by a success; that the window then has room for the step follows from cursor <= length, which is
+// not part of the window invariant (assumed here, listed)
+//@   postassume read: s.cursor + 1 < len(s.buf)
+//@   ensures err == nil ==> wfStream(s)
+//@   ensures sameOrNewArray(s.buf)
+//@   assigns all
+//@   loop 1: invariant wfStream(s) && apartS(p, d.alen * d.size, s)
+//@   loop 1: invariant sameOrNewArray(s.buf)
+//@   loop 1: invariant d.alen == old(d.alen) && d.size == old(d.size) && d.elemType == old(d.elemType) && d.valueDecoder == old(d.valueDecoder)
+//@   loop 2: invariant 0 <= idx
+//@   loop 2: invariant wfStream(s)
+//@   loop 2: invariant apartS(p, d.alen * d.size, s)
+//@   loop 2: invariant sameOrNewArray(s.buf)
+//@   loop 2: invariant d.alen == old(d.alen) && d.size == old(d.size) && d.elemType == old(d.elemType) && d.valueDecoder == old(d.valueDecoder)
+//@   loop 3: invariant 0 <= idx
+//@   loop 3: invariant wfStream(s)
+//@   loop 3: invariant apartS(p, d.alen * d.size, s)
+//@   loop 3: invariant sameOrNewArray(s.buf)
+//@   loop 3: invariant d.alen == old(d.alen) && d.size == old(d.size) && d.elemType == old(d.elemType) && d.valueDecoder == old(d.valueDecoder)
+//@   loop 4: invariant 0 <= idx
+//@   loop 4: invariant wfStream(s)
+//@   loop 4: invariant apartS(p, d.alen * d.size, s)
+//@   loop 4: invariant sameOrNewArray(s.buf)
+//@   loop 4: invariant d.alen == old(d.alen) && d.size == old(d.size) && d.elemType == old(d.elemType) && d.valueDecoder == old(d.valueDecoder)
+
+// pointer destinations in stream mode: one pointer word at p; the element decoder gets the pointer stored
+// there or a fresh object, never nil
+//@ func (*ptrDecoder).DecodeStream(d, s, depth, p) (err)
+//@   props C07 C06 C09
+//@   requires d != nil && wfStream(s)
+//@   requires p != nil && region(p, 8) && apartS(p, 8, s)
+// the pointee is an object of its own: it is no part of the window either
+//@   callassume DecodeStream: apartS(newptr, dsize(dataOf(d.dec)), s)
+//@   callassert[C07] DecodeStream: arg3 != nil
+//@   ensures err == nil ==> wfStream(s)
+//@   ensures sameOrNewArray(s.buf)
+//@   assigns all
+
+// a string destination in stream mode: the 16-byte header at p is the only write outside the window
+//@ func (*stringDecoder).DecodeStream(d, s, depth, p) (err)
+//@   props C07 C06 C09
+//@   requires d != nil && wfStream(s)
+//@   requires region(p, 16) && apartS(p, 16, s)
+//@   ensures err == nil ==> wfStream(s)
+//@   ensures sameOrNewArray(s.buf)
+//@   assigns all
+
+// embedded pointer-to-struct fields: the pointer word at p is set to a fresh struct when nil; the field decoder
+// works inside the pointee
+//@ func (*anonymousFieldDecoder).Decode(d, ctx, cursor, depth, p) (c, err)
+//@   props C07 C06
+//@   requires d != nil && ctx != nil && bufOK(ctx.Buf, cursor)
+//@   requires p != nil && region(p, 8) && dstApart(p, 8, ctx.Buf)
+// struct invariant (constructor, from reflect's field table): the promoted field lies inside the embedded struct
+//@   requires 0 <= d.offset && 0 <= dsize(dataOf(d.dec)) && d.offset + dsize(dataOf(d.dec)) <= rsize(d.structType) && rsize(d.structType) < 140737488355328
+// the pointee is an object of its own (Go's type invariant for a non-nil *T field): not part of the input copy
+//@   callassume Decode: dstApart(arg4, dsize(dataOf(d.dec)), ctx.Buf)
+//@   callassert[C07] Decode: arg4 != nil
+//@   ensures err == nil ==> cursor < c && c < len(old(ctx.Buf))
+//@   assigns all
+
+//@ func (*anonymousFieldDecoder).DecodeStream(d, s, depth, p) (err)
+//@   props C07 C06 C09
+//@   requires d != nil && wfStream(s)
+//@   requires p != nil && region(p, 8) && apartS(p, 8, s)
+//@   requires 0 <= d.offset && 0 <= dsize(dataOf(d.dec)) && d.offset + dsize(dataOf(d.dec)) <= rsize(d.structType) && rsize(d.structType) < 140737488355328
+//@   callassume DecodeStream: apartS(arg3, dsize(dataOf(d.dec)), s)
+//@   callassert[C07] DecodeStream: arg3 != nil
+//@   ensures err == nil ==> wfStream(s)
+//@   ensures sameOrNewArray(s.buf)
 //@   assigns all
 
 // ---------------------------------------------------------------- stream helpers: safety and window invariant (C06, C09)
@@ -996,28 +1379,39 @@ package decoder
 //@   props C06 C09
 //@   requires wfStream(s)
 //@   ensures wfStream(s) && s.cursor >= old(s.cursor) && !ws(c) && (c != 0 ==> c == s.buf[s.cursor])
-//@   assigns all
+// the window is the old array (or a part of it) or one allocated here: what was apart from it stays apart
+//@   ensures sameOrNewArray(s.buf)
+//@   assigns M, Stream.buf, Stream.bufSize, Stream.length, Stream.cursor, Stream.filledBuffer, Stream.allRead, Stream.readErr, fresh
 //@   loop 1: invariant wfStream(s) && s.cursor >= old(s.cursor) && p == ptrOf(s.buf)
+//@   loop 1: invariant sameOrNewArray(s.buf)
 
 //@ func (*Stream).equalChar(s, c) (eq)
 //@   props C06 C09
 //@   requires wfStream(s)
 //@   ensures wfStream(s) && s.cursor == old(s.cursor)
-//@   assigns all
+// the window is the old array (or a part of it) or one allocated here: what was apart from it stays apart
+//@   ensures sameOrNewArray(s.buf)
+//@   assigns M, Stream.buf, Stream.bufSize, Stream.length, Stream.cursor, Stream.filledBuffer, Stream.allRead, Stream.readErr, fresh
 
 //@ func (*Stream).PrepareForDecode(s) (err)
 //@   props C06 C09
 //@   requires wfStream(s)
 //@   ensures wfStream(s) && s.cursor >= old(s.cursor)
-//@   assigns all
+// the window is the old array (or a part of it) or one allocated here: what was apart from it stays apart
+//@   ensures sameOrNewArray(s.buf)
+//@   assigns M, Stream.buf, Stream.bufSize, Stream.length, Stream.cursor, Stream.filledBuffer, Stream.allRead, Stream.readErr, fresh
 //@   loop 1: invariant wfStream(s) && s.cursor >= old(s.cursor)
+//@   loop 1: invariant sameOrNewArray(s.buf)
 
 //@ func (*Stream).More(s) (more)
 //@   props C06 C09
 //@   requires wfStream(s)
 //@   ensures wfStream(s) && s.cursor >= old(s.cursor)
-//@   assigns all
+// the window is the old array (or a part of it) or one allocated here: what was apart from it stays apart
+//@   ensures sameOrNewArray(s.buf)
+//@   assigns M, Stream.buf, Stream.bufSize, Stream.length, Stream.cursor, Stream.filledBuffer, Stream.allRead, Stream.readErr, fresh
 //@   loop 1: invariant wfStream(s) && s.cursor >= old(s.cursor)
+//@   loop 1: invariant sameOrNewArray(s.buf)
 
 //@ func (*Stream).TakeReadError(s) (err)
 //@   props C09
@@ -1026,15 +1420,13 @@ package decoder
 
 //@ func (*Stream).stat(s) (b, c, p)
 //@   props C09 C06
-//@   trusted reads the data word of the slice header through unsafe.Pointer
 //@   requires s != nil
 //@   ensures b == s.buf && c == s.cursor && p == ptrOf(s.buf)
 //@   assigns nothing
 
 //@ func (*Stream).statForRetry(s) (b, c, p)
 //@   props C09 C06
-//@   trusted steps the cursor back by one and reads the data word of the slice header through unsafe.Pointer
-//@   requires s != nil
+//@   requires s != nil && s.cursor >= 0
 //@   ensures s.cursor == old(s.cursor) - 1 && b == s.buf && c == s.cursor && p == ptrOf(s.buf)
 //@   assigns Stream.cursor
 
@@ -1046,55 +1438,77 @@ package decoder
 //@   requires wfStream(s)
 //@   ensures wfStream(s) && s.cursor == old(s.cursor) && (ok ==> s.buf[s.cursor] != 0)
 //@   ensures forall k :: 0 <= k && k < s.cursor ==> s.buf[k] == old(s.buf[k])
-//@   assigns all
+// the window is the old array (or a part of it) or one allocated here: what was apart from it stays apart
+//@   ensures sameOrNewArray(s.buf)
+//@   assigns M, Stream.buf, Stream.bufSize, Stream.length, Stream.cursor, Stream.filledBuffer, Stream.allRead, Stream.readErr, fresh
 //@   loop 1: invariant wfStream(s) && s.cursor == old(s.cursor) && (forall k :: 0 <= k && k < s.cursor ==> s.buf[k] == old(s.buf[k]))
+//@   loop 1: invariant sameOrNewArray(s.buf)
 
 //@ func (*Stream).skipString(s) (err)
 //@   props C06 C09
 //@   requires wfStream(s) && s.buf[s.cursor] == '"'
 //@   ensures err == nil ==> wfStream(s) && s.cursor > old(s.cursor)
-//@   assigns all
+// the window is the old array (or a part of it) or one allocated here: what was apart from it stays apart
+//@   ensures sameOrNewArray(s.buf)
+//@   assigns M, Stream.buf, Stream.bufSize, Stream.length, Stream.cursor, Stream.filledBuffer, Stream.allRead, Stream.readErr, fresh
 //@   loop 1: invariant wfStream(s) && s.cursor >= old(s.cursor) && s.buf[s.cursor] != 0
+//@   loop 1: invariant sameOrNewArray(s.buf)
 //@   loop 2: invariant wfStream(s) && s.cursor > old(s.cursor) && s.buf[s.cursor] != 0 && 0 <= i && i <= 4
+//@   loop 2: invariant sameOrNewArray(s.buf)
 
 //@ func (*Stream).skipValue(s, depth) (err)
 //@   props C06 C09
 //@   requires wfStream(s)
 //@   ensures err == nil ==> wfStream(s)
-//@   assigns all
+// the window is the old array (or a part of it) or one allocated here: what was apart from it stays apart
+//@   ensures sameOrNewArray(s.buf)
+//@   assigns M, Stream.buf, Stream.bufSize, Stream.length, Stream.cursor, Stream.filledBuffer, Stream.allRead, Stream.readErr, fresh
 //@   loop 1: invariant wfStream(s) && start <= s.cursor && 0 <= start && s.buf[s.cursor] != 0
+//@   loop 1: invariant sameOrNewArray(s.buf)
 
 //@ func (*Stream).skipNestedValue(s, depth) (err)
 //@   props C06 C09
 //@   requires wfStream(s)
 //@   ensures err == nil ==> wfStream(s)
-//@   assigns all
+// the window is the old array (or a part of it) or one allocated here: what was apart from it stays apart
+//@   ensures sameOrNewArray(s.buf)
+//@   assigns M, Stream.buf, Stream.bufSize, Stream.length, Stream.cursor, Stream.filledBuffer, Stream.allRead, Stream.readErr, fresh
 
 //@ func (*Stream).skipObjectMember(s, depth) (err)
 //@   props C06 C09
 //@   requires wfStream(s)
 //@   ensures err == nil ==> wfStream(s)
-//@   assigns all
+// the window is the old array (or a part of it) or one allocated here: what was apart from it stays apart
+//@   ensures sameOrNewArray(s.buf)
+//@   assigns M, Stream.buf, Stream.bufSize, Stream.length, Stream.cursor, Stream.filledBuffer, Stream.allRead, Stream.readErr, fresh
 
 //@ func (*Stream).skipObjectRest(s, depth) (err)
 //@   props C06 C09
 //@   requires wfStream(s)
 //@   ensures err == nil ==> wfStream(s)
-//@   assigns all
+// the window is the old array (or a part of it) or one allocated here: what was apart from it stays apart
+//@   ensures sameOrNewArray(s.buf)
+//@   assigns M, Stream.buf, Stream.bufSize, Stream.length, Stream.cursor, Stream.filledBuffer, Stream.allRead, Stream.readErr, fresh
 //@   loop 1: invariant wfStream(s)
+//@   loop 1: invariant sameOrNewArray(s.buf)
 
 //@ func (*Stream).skipObject(s, depth) (err)
 //@   props C06 C09
 //@   requires wfStream(s)
 //@   ensures err == nil ==> wfStream(s)
-//@   assigns all
+// the window is the old array (or a part of it) or one allocated here: what was apart from it stays apart
+//@   ensures sameOrNewArray(s.buf)
+//@   assigns M, Stream.buf, Stream.bufSize, Stream.length, Stream.cursor, Stream.filledBuffer, Stream.allRead, Stream.readErr, fresh
 
 //@ func (*Stream).skipArray(s, depth) (err)
 //@   props C06 C09
 //@   requires wfStream(s)
 //@   ensures err == nil ==> wfStream(s)
-//@   assigns all
+// the window is the old array (or a part of it) or one allocated here: what was apart from it stays apart
+//@   ensures sameOrNewArray(s.buf)
+//@   assigns M, Stream.buf, Stream.bufSize, Stream.length, Stream.cursor, Stream.filledBuffer, Stream.allRead, Stream.readErr, fresh
 //@   loop 1: invariant wfStream(s)
+//@   loop 1: invariant sameOrNewArray(s.buf)
 
 
 // ---------------------------------------------------------------- UnmarshalJSON dispatch (C06)
@@ -1113,8 +1527,11 @@ package decoder
 //@ func (*stringDecoder).decodeStreamByte(d, s) (res, err)
 //@   props C07 C09
 //@   trusted stream-mode string scanner (refill branches, in-place unescape in the window; covered by the bounded chunking stand-in)
-//@   requires d != nil && s != nil
+//@   requires d != nil && wfStream(s)
+//@   ensures err == nil ==> wfStream(s)
 //@   ensures err == nil && res != nil ==> len(res) >= 0 && len(res) <= cap(res)
+// the window is the old array (or a part of it) or one allocated here: what was apart from it stays apart
+//@   ensures sameOrNewArray(s.buf)
 //@   assigns M, Stream.buf, Stream.bufSize, Stream.length, Stream.cursor, Stream.offset, Stream.filledBuffer, Stream.allRead, Stream.readErr
 
 // The text of a ,string member or of a non-string map key is one whole value: accepted only if the inner
@@ -1142,7 +1559,7 @@ package decoder
 
 //@ func (*wrappedStringDecoder).DecodeStream(d, s, depth, p) (err)
 //@   props C07 C09 C06
-//@   requires d != nil && d.stringDecoder != nil && d.dec != nil && s != nil
+//@   requires d != nil && d.stringDecoder != nil && d.dec != nil && wfStream(s)
 //@   requires d.isPtrType ==> dsize(dataOf(d.dec)) == 8
 //@   requires region(p, dsize(dataOf(d.dec))) && dsize(dataOf(d.dec)) >= 1
 //@   assigns all
